@@ -59,10 +59,14 @@ def encode(method, data):
     raise ValueError(method)
 
 
-def write7z(entries, method="copy", solid=True, with_attrs=True, with_crc=True):
-    """entries: [(name, bytes | None)]: None = directory, b'' = empty file (emptyStream + emptyFile, as 7-Zip writes it)."""
+def write7z(entries, method="copy", solid=True, with_attrs=True, with_crc=True, group=None):
+    """entries: [(name, bytes | None)]: None = directory, b'' = empty file (emptyStream + emptyFile, as 7-Zip writes it).
+    solid: one folder for everything; group=n: solid blocks of n files; else one folder per file."""
     streams = [(n, d) for n, d in entries if d]
-    groups = [streams] if (solid and streams) else [[s] for s in streams]
+    if group:
+        groups = [streams[i:i + group] for i in range(0, len(streams), group)]
+    else:
+        groups = [streams] if (solid and streams) else [[s] for s in streams]
     packed, folders = [], []
     for g in groups:
         blob = b"".join(d for _n, d in g)
@@ -115,9 +119,9 @@ def write_zip(entries, comp):
     return buf.getvalue()
 
 
-def write_tar(entries, mode):
+def write_tar(entries, mode, fmt=tarfile.DEFAULT_FORMAT):
     buf = io.BytesIO()
-    with tarfile.open(fileobj=buf, mode=mode) as t:
+    with tarfile.open(fileobj=buf, mode=mode, format=fmt) as t:
         for n, d in entries:
             ti = tarfile.TarInfo(n)
             if d is None:
@@ -138,6 +142,13 @@ for _m in ("copy", "lzma", "lzma2"):
         LAYOUTS.append((f"7z-{_m}-{'solid' if _solid else 'folder-per-file'}", "a.7z",
                         (lambda e, m=_m, s=_solid: write7z(e, m, s))))
 
+LAYOUTS += [("tar-gnu", "a.tar", lambda e: write_tar(e, "w", tarfile.GNU_FORMAT)), ("tar-ustar", "a.tar", lambda e: write_tar(e, "w", tarfile.USTAR_FORMAT)),
+            ("tar.gz-gnu", "a.tar.gz", lambda e: write_tar(e, "w:gz", tarfile.GNU_FORMAT)),
+            ("7z-copy-blocks-of-2", "a.7z", lambda e: write7z(e, "copy", group=2)), ("7z-lzma2-blocks-of-2", "a.7z", lambda e: write7z(e, "lzma2", group=2)),
+            ("7z-lzma-blocks-of-3", "a.7z", lambda e: write7z(e, "lzma", group=3)),
+            ("7z-copy-solid-noattrs-nocrc", "a.7z", lambda e: write7z(e, "copy", True, with_attrs=False, with_crc=False)),
+            ("7z-copy-folder-per-file-noattrs", "a.7z", lambda e: write7z(e, "copy", False, with_attrs=False))]
+
 DOCS = [("a.txt", b"alpha alpha\nline two"), ("sub/b.md", b"# bravo\n\ntext"), ("c.csv", b"x,y\n1,2\n3,4\n"), ("sub/deep/d.json", b'{"k": [1, 2, 3]}'),
         ("e.html", b"<html><body><p>echo</p></body></html>"), ("f.txt", b"foxtrot " * 40)]
 NOISE = [("dir1", None), ("empty.txt", b""), (".hidden.txt", b"hidden"), ("prog.exe", b"MZ\x00\x00"), ("inner.zip", b"PK\x05\x06" + b"\x00" * 18),
@@ -156,6 +167,10 @@ def member_sets():
         base.insert(k, CORRUPT)
         yield base
     yield [NOISE[1], NOISE[0]]               # only an empty file and a directory
+    yield [("z0.txt", b""), DOCS[0], DOCS[1], ("sub/z1.md", b""), DOCS[2], DOCS[5]]     # zero-length files before non-empty ones
+    yield list(DOCS)                                                                      # six members: >= 3 folders / blocks
+    yield [("d\u00e9j\u00e0/\u00fcber.txt", b"non-ascii name"), ("\u65e5\u672c.md", "# \u65e5\u672c".encode()), DOCS[0], ("big.txt", b"0123456789" * 3000)]
+    yield [DOCS[1], DOCS[0]] + [(f"n{i}.txt", f"member {i}".encode() * (i + 1)) for i in range(9)]      # eleven members
 
 
 def observe(r):
@@ -163,7 +178,7 @@ def observe(r):
     return [m.filename, m.file_path, json.loads(json.dumps(r.to_json(), default=repr, sort_keys=True))]
 
 
-def expected(entries, archive_name):
+def expected(entries, archive_name, with_origin=False):
     """direct extraction of every visible supported member on its own, in archive order"""
     from sharepoint2text.parsing.router import get_extractor, is_supported_file
     out = []
@@ -179,7 +194,7 @@ def expected(entries, archive_name):
             res = list(get_extractor(base)(io.BytesIO(data), path=f"{archive_name}!/{name}"))
         except Exception:  # noqa  a corrupt member has no results
             continue
-        out.extend(observe(r) for r in res)
+        out.extend((observe(r), len(data)) if with_origin else observe(r) for r in res)
     return out
 
 
@@ -194,22 +209,37 @@ def run_archive(data, archive_name):
     return out, None
 
 
-def first_diff(got, want):
-    for i, (g, w) in enumerate(itertools.zip_longest(got, want)):
-        if g != w:
-            gs = None if g is None else [g[0], g[1], str(g[2].get("content", g[2]))[:60]]
-            ws = None if w is None else [w[0], w[1], str(w[2].get("content", w[2]))[:60]]
-            return f"result #{i}: got {gs}, direct extraction gives {ws}"
+def first_diff(got, want, optional=()):
+    """first difference between the result lists; `optional` = indices of `want` that may be absent from `got`
+    (the input class of a recorded finding: the affected member's own result), everything else must agree in order"""
+    def short(x):
+        return None if x is None else [x[0], x[1], str(x[2].get("content", x[2]))[:60]]
+    i = j = 0
+    while i < len(got) or j < len(want):
+        g = got[i] if i < len(got) else None
+        w = want[j] if j < len(want) else None
+        if g is not None and g == w:
+            i, j = i + 1, j + 1
+        elif w is not None and j in optional:
+            j += 1
+        else:
+            return f"result #{i}: got {short(g)}, direct extraction gives {short(w)}"
     return None
 
 
 def recorded(label, entries):
     """input classes of the recorded known findings (known_findings.json); each has its own witness replay"""
-    if label.startswith("7z") and any(d == b"" for _n, d in entries):
-        return "F25"
-    if label == "tar" and not entries:
+    if label in ("tar", "tar-gnu", "tar-ustar") and not entries:
         return "F27"
     return None
+
+
+def optional_results(label, entries, aname):
+    """F25 (recorded): in a 7z archive the result of a ZERO-LENGTH member itself may be missing; every other member's
+    result, the order, and the absence of errors are still required"""
+    if not label.startswith("7z"):
+        return ()
+    return {k for k, (_r, n) in enumerate(expected(entries, aname, with_origin=True)) if n == 0}
 
 
 def matrix(layout_filter=None, sets=None, skip_recorded=True):
@@ -223,7 +253,7 @@ def matrix(layout_filter=None, sets=None, skip_recorded=True):
             data = build(entries)
             got, err = run_archive(data, aname)
             want = expected(entries, aname)
-            d = first_diff(got, want)
+            d = first_diff(got, want, optional_results(label, entries, aname) if skip_recorded else ())
             if err is not None or d is not None:
                 return {"target": "archive_extractor.py::read_archive", "inputs": {"layout": label, "members": [[n, None if b is None else f"{len(b)} bytes"] for n, b in entries],
                                                                                    "archive_hex": data.hex() if len(data) < 1500 else f"{len(data)} bytes"},
@@ -270,11 +300,47 @@ def check_bool_vector():
 def check_detect():
     from sharepoint2text.parsing.extractors.archive_extractor import _detect_archive_type_optimized
     for label, _aname, build in LAYOUTS:
-        want = "zip" if label.startswith("zip") else ("7z" if label.startswith("7z") else label)
+        want = "zip" if label.startswith("zip") else ("7z" if label.startswith("7z") else label.split("-")[0])
         for entries in ([DOCS[0]], DOCS[:3]):
             got = _detect_archive_type_optimized(io.BytesIO(build(entries)))
             if got != want:
                 return {"target": "archive_extractor.py::_detect_archive_type_optimized", "inputs": {"layout": label}, "expected": want, "observed": str(got)}
+    return None
+
+
+def check_7z_bytes():
+    """SevenZipReader level: every entry is listed with its name / size, and extractall writes every non-empty member's own
+    bytes (also members no extractor exists for), for all coders / folder layouts of the writer"""
+    import tempfile
+    from sharepoint2text.parsing.extractors.util.sevenzip import SevenZipReader
+    for entries in member_sets():
+        for label, _aname, build in LAYOUTS:
+            if not label.startswith("7z"):
+                continue
+            data = build(entries)
+            try:
+                rd = SevenZipReader(io.BytesIO(data))
+                listed = [(f.filename, f.uncompressed) for f in rd.list()]
+                want = [(n, len(d) if d else 0) for n, d in entries]
+                obs = None
+                if listed != want:
+                    obs = f"list() = {listed[:6]}, header has {want[:6]}"
+                else:
+                    with tempfile.TemporaryDirectory() as td:
+                        rd.extractall(td)
+                        for n, d in entries:
+                            if d:
+                                p = os.path.join(td, n)
+                                b = open(p, "rb").read() if os.path.exists(p) else None
+                                if b != d:
+                                    obs = f"member {n!r}: extracted {None if b is None else b[:24]!r}..., archive holds {d[:24]!r}..."
+                                    break
+            except Exception as e:  # noqa
+                obs = f"{type(e).__name__}: {e}"
+            if obs:
+                return {"target": "sevenzip.py::SevenZipReader (list / extractall)", "inputs": {"layout": label, "members": [[n, None if b is None else f"{len(b)} bytes"] for n, b in entries],
+                                                                                               "archive_hex": data.hex() if len(data) < 1500 else f"{len(data)} bytes"},
+                        "expected": "entries listed with their names and sizes; every member extracted with its own bytes", "observed": obs}
     return None
 
 
@@ -327,7 +393,9 @@ def find(req):
         return r
     ob = req.get("obligation", "") or ""
     checks = []
-    if "_read_number" in ob or "_read_uint" in ob or "_read_bytes" in ob:
+    if "native-scope" in ob:
+        checks = [check_read_number, check_bool_vector, check_detect, check_7z_bytes, matrix]
+    elif "_read_number" in ob or "_read_uint" in ob or "_read_bytes" in ob:
         checks = [check_read_number]
     elif "_read_boolean_vector" in ob:
         checks = [check_bool_vector]
@@ -336,7 +404,7 @@ def find(req):
     elif "empty-file-is-not-a-directory" in ob:
         checks = [lambda: finding("F25-7z-empty-file-taken-for-directory")]
     elif "_build_file_list" in ob or "_extract_files_from_folder" in ob or "_parse_" in ob or "_7z" in ob:
-        checks = [lambda: matrix(lambda l: l.startswith("7z"))]
+        checks = [check_7z_bytes, lambda: matrix(lambda l: l.startswith("7z"))]
     elif "plain-tar-detected-as-tar" in ob:
         checks = [lambda: finding("F26-plain-tar-first-name-starts-with-another-magic")]
     elif "empty-tar" in ob:
@@ -348,7 +416,7 @@ def find(req):
     elif "_tar_" in ob:
         checks = [lambda: matrix(lambda l: l.startswith("tar"))]
     else:
-        checks = [check_read_number, check_bool_vector, check_detect, matrix]
+        checks = [check_read_number, check_bool_vector, check_detect, check_7z_bytes, matrix]
     for ck in checks:
         r = ck()
         if r is not None:
